@@ -84,9 +84,6 @@ fn c10_undirected(mask: i32, multi: bool) {
     let w = weakly_connected_components(&g);
     let s = strongly_connected_components(&g);
     vassert!(is_wrong_method(&w) && is_wrong_method(&s), "directed-only component functions refuse undirected graphs");
-    vcover!(comps.as_ref().unwrap().len() == 3, "three singleton components");
-    vcover!(comps.as_ref().unwrap().len() == 1, "one component");
-    vcover!(comps.as_ref().unwrap().len() == 2, "two components");
     core::mem::forget(comps);
     core::mem::forget(n);
     core::mem::forget(w);
@@ -106,7 +103,6 @@ fn c10_directed(mask: i32, multi: bool, which: u8) {
         let w = weakly_connected_components(&g);
         vassert!(w.is_ok(), "weakly_connected_components succeeds on a directed graph");
         check_partition(w.as_ref().unwrap(), &ur);
-        vcover!(w.as_ref().unwrap().len() == 2, "two components");
         core::mem::forget(w);
         let c = connected_components(&g);
         let nc = number_of_connected_components(&g);
@@ -129,8 +125,6 @@ fn c10_directed(mask: i32, multi: bool, which: u8) {
         let s = strongly_connected_components(&g);
         vassert!(s.is_ok(), "strongly_connected_components succeeds on a directed graph");
         check_partition(s.as_ref().unwrap(), &both);
-        vcover!(s.as_ref().unwrap().len() == 1, "one component");
-        vcover!(s.as_ref().unwrap().len() == 2, "two components");
         core::mem::forget(s);
     }
     core::mem::forget(g);
